@@ -606,32 +606,46 @@ async def drive_raop(ops, streaming):
 
         @volume.setter
         def volume(self, v):
-            cur.append(({"op": "dev", "pump": "echo", "stream": "adopt"}[phase["p"]], fhex(v)))
+            if phase.get("sent") is not None:
+                # the REAL StreamClient.set_volume recording, in the shared context, the level it has
+                # just sent to the receiver: one observable ("dev") as long as both are the same level
+                sent, phase["sent"] = phase["sent"], None
+                if fhex(sent) != fhex(v):
+                    cur.append(("dev", fhex(v)))
+            else:
+                cur.append(({"op": "dev", "pump": "echo", "stream": "adopt"}[phase["p"]], fhex(v)))
             self._v = v
 
-    class FakeStream:
-        """Stands for StreamClient: set_volume stores what it sent; send_audio applies a deferred
-        level exactly like pyatv/protocols/raop/stream_client.py (`if volume:`)."""
+    class FakeRtsp:
+        """Receiver side of the RTSP session: records every SET_PARAMETER volume it is sent."""
 
-        def __init__(self, context, info=None):
-            self.context = context
-            self.info = info or {}
-            self.listener = None
+        async def set_parameter(self, name, value):      # does not suspend: one call is atomic in the model
+            if name == "volume":
+                lv = float(value)
+                cur.append(("dev", fhex(lv)))
+                phase["sent"] = lv
 
-        async def initialize(self, properties):
+    def make_client(context, info=None):
+        """The REAL pyatv StreamClient (set_volume is pyatv's own code, talking to FakeRtsp and to the
+        shared context); only connection set-up and the audio transport are replaced: send_audio keeps
+        the one line that concerns the level (`if volume: await self.set_volume(pct_to_dbfs(volume))`)."""
+        from pyatv.protocols.raop.stream_client import StreamClient
+        client = StreamClient(FakeRtsp(), context, object(), None)
+        client._info = dict(info or {})
+
+        async def initialize(properties):
             pass
 
-        async def set_volume(self, v):     # does not suspend: the model treats one call as atomic
-            cur.append(("dev", fhex(v)))
-            self.context._v = v
-
-        async def send_audio(self, source, metadata=None, /, volume=None):
+        async def send_audio(source, metadata=None, /, volume=None):
             if volume:
                 from pyatv.protocols.airplay.utils import pct_to_dbfs
-                await self.set_volume(pct_to_dbfs(volume))
+                await client.set_volume(pct_to_dbfs(volume))
 
-        def stop(self):
-            pass
+        client.initialize = initialize
+        client.send_audio = send_audio
+        return client
+
+    FakeStream = make_client
 
     class PM:
         def __init__(self):
@@ -684,7 +698,15 @@ async def drive_raop(ops, streaming):
     pm = PM()
     ra = RaopAudio(pm, ProtocolStateDispatcher(Protocol.RAOP, cd))
     fa.register(ra, Protocol.RAOP)
-    stream = RaopStream(FakeCore(), object(), ra, pm)
+    class StreamListener:
+        def playing(self, info):
+            pass
+
+        def stopped(self):
+            pass
+
+    stream_listener = StreamListener()
+    stream = RaopStream(FakeCore(), stream_listener, ra, pm)
     real_set = ra.set_volume
 
     async def spy_set(level):
@@ -700,6 +722,7 @@ async def drive_raop(ops, streaming):
         for op in ops:
             del cur[:]
             phase["p"] = "op"
+            phase["sent"] = None
             try:
                 if op[0] == "set":
                     await fa.set_volume(unhex(op[1]))
@@ -977,7 +1000,15 @@ def judge_raop(ops, events):
                 if not ex and not fw:
                     errs.append(("C20:write:out-of-range-accepted", "set_volume(%r) returned normally" % lv))
         elif kind in ("up", "down"):
-            expected = None
+            # a step starts from the level the user last set (mechanism: clamped +/-5), and the level
+            # handed on is the new current level: later reads and steps are judged against it
+            if expected is not None and not ex and len(fw) == 1 and fw[0] == fw[0]:
+                target = min(expected + 5.0, 100.0) if kind == "up" else max(expected - 5.0, 0.0)
+                if abs(fw[0] - target) > TINY:
+                    errs.append(("C20:step:not-from-current-level",
+                                 "the level was set to %r; volume_%s handed %r to RaopAudio.set_volume (expected %r)"
+                                 % (expected, kind, fw[0], target)))
+            expected = fw[0] if (not ex and len(fw) == 1 and in_range(fw[0])) else None
             if "ProtocolError" in ex and not poisoned:
                 errs.append(("C20:step:in-range-rejected", "volume_%s raised ProtocolError from a valid state" % kind))
         elif kind == "stream":
